@@ -76,5 +76,16 @@ UnboundedVariants(n) == {<<Vec(n, 0), Vec(n, INF)>>, <<[j \in 1..n |-> IF j = 1 
 SysMatrix(d, n, vals) == {Plain(A, 4, Vec(n, 0), Vec(n, 4)) : A \in AllMats(d, n, vals)}
 SysBoundsOf(A) == {Plain(A, 4, bv[1], bv[2]) : bv \in BoundVariants(Len(A[1]))}
 SysUnbOf(A) == {Plain(A, 4, bv[1], bv[2]) : bv \in UnboundedVariants(Len(A[1]))}
+(* "odd" systems: non-dyadic everything (D = 10, K = 1/7 or (1/7, 3/7, ..), baseline tenths), *)
+(* so that no product in the implementation is exact in binary floating point                  *)
+SysOddOf(A, unb) ==
+  LET d == Len(A)
+      n == Len(A[1])
+      lbs == {[j \in 1..n |-> IF j = 1 THEN 1 ELSE 3], [j \in 1..n |-> 2 * j - 1], Vec(n, 0)}
+      ubf == [j \in 1..n |-> IF unb THEN INF ELSE 7 + 3 * j]
+  IN {Sys(A, 10, lb, ubf, kv[1], kv[2], 7, bv[1], bv[2]) :
+        lb \in lbs,
+        kv \in {<<"scalar", Identity(d)>>, <<"vector", Diag([i \in 1..d |-> 2 * i - 1])>>},
+        bv \in {<<"none", Vec(d, 0)>>, <<"vector", [i \in 1..d |-> 4 * i - 1]>>}}
 SysKBOf(A, lb, ub, KV) == {Sys(A, 4, lb, ub, kv[1], kv[2], kv[3], bv[1], bv[2]) : kv \in KV, bv \in BVariants(Len(A))}
 =============================================================================
